@@ -54,19 +54,22 @@ pub struct WireRec {
     pub call: u64,
     pub t_ns: u64,
     pub local_ms: u64,
+    pub local_ns: u64,
     pub src: usize,
     pub dst: Option<usize>,
     pub dst_addr: SocketAddr,
     pub bytes: Rc<Vec<u8>>,
     pub ord: u64,
     pub fate: Fate,
+    /// scheduled arrival time of each copy (after fifo adjustment)
+    pub arrivals_ns: Vec<u64>,
 }
 
 /// Everything that happens in a run is announced to the oracles as one of these records.
 #[derive(Clone, Debug)]
 pub enum Rec {
     /// About to call into endpoint `ep` (or apply a harness operation).
-    Call { call: u64, t_ns: u64, local_ms: u64, ep: Option<usize>, op: Op, skipped: bool },
+    Call { call: u64, t_ns: u64, local_ms: u64, local_ns: u64, ep: Option<usize>, op: Op, skipped: bool },
     /// A send() was issued with this payload; `accepted` tells whether the endpoint queued it.
     Submit { call: u64, ep: usize, to: Option<usize>, ch: u8, mode: u8, tag: u32, payload: Rc<Vec<u8>>, accepted: bool, echo: bool },
     /// A datagram left endpoint `src` during call `call`.
@@ -130,6 +133,11 @@ impl<'a> Cx<'a> {
 }
 
 pub trait Adversary {
+    /// A middlebox may re-encode a datagram in transit: returns the bytes to deliver instead of
+    /// the first clean copy (recorded in the materialised fate).
+    fn rewrite(&mut self, _src: usize, _dst: usize, _bytes: &[u8], _fate: &Fate, _plan: &Plan) -> Option<Vec<u8>> {
+        None
+    }
     /// Called for every datagram on the wire; may schedule injected datagrams.
     fn on_wire(&mut self, w: &WireRec, now_us: u64, plan: &Plan, out: &mut Vec<TimedOp>);
     fn on_call_end(&mut self, _call: u64, _ep: Option<usize>, _probe: &Probe, _now_us: u64, _plan: &Plan, _out: &mut Vec<TimedOp>) {}
@@ -147,6 +155,7 @@ pub struct Stats {
     pub blackout_dropped: u64,
     pub type_dropped: u64,
     pub injected: u64,
+    pub rewritten: u64,
     pub sock_errors: u64,
     pub inbox_overflow: u64,
     pub no_socket: u64,
@@ -173,6 +182,7 @@ impl Stats {
         a("fault_blackout_drop", self.blackout_dropped);
         a("fault_type_targeted_drop", self.type_dropped);
         a("fault_injected_datagram", self.injected);
+        a("fault_rewritten_in_transit", self.rewritten);
         a("fault_socket_error", self.sock_errors);
         a("fault_inbox_overflow", self.inbox_overflow);
         a("fault_no_socket", self.no_socket);
@@ -514,7 +524,7 @@ impl<'a> World<'a> {
     fn digest_rec(&mut self, rec: &Rec) {
         let d = &mut self.digest;
         match rec {
-            Rec::Call { call, t_ns, local_ms, ep, op, skipped } => {
+            Rec::Call { call, t_ns, local_ms, ep, op, skipped, .. } => {
                 d.word(1);
                 d.word(*call);
                 d.word(*t_ns);
@@ -654,14 +664,14 @@ impl<'a> World<'a> {
             }
             d
         };
-        let mut copies = vec![FateCopy { delay_us: delay(&mut r, &mut self.stats), flips: Vec::new(), trunc: None }];
+        let mut copies = vec![FateCopy { delay_us: delay(&mut r, &mut self.stats), flips: Vec::new(), trunc: None, replace: None }];
         if r.chance(rule.dup_p) {
             self.stats.duplicated += 1;
             let n = 1 + r.below(3);
             for _ in 0..n {
                 // a copy shortly after the original is the interesting case (stale-ack handling)
                 let extra = if r.chance(0.6) { r.range(1, 40_000) } else { r.range(1, 3_000_000) };
-                copies.push(FateCopy { delay_us: copies[0].delay_us + extra, flips: Vec::new(), trunc: None });
+                copies.push(FateCopy { delay_us: copies[0].delay_us + extra, flips: Vec::new(), trunc: None, replace: None });
             }
         }
         if r.chance(rule.flip_p) {
@@ -700,9 +710,10 @@ impl<'a> World<'a> {
         let dst = self.addrs.iter().position(|a| *a == dst_addr);
         let bytes = Rc::new(bytes);
         let local_ms = self.local_ms(src);
+        let local_ns = self.local_ns(src);
         let Some(dst_ep) = dst else {
             self.stats.no_socket += 1;
-            let w = WireRec { call, t_ns: self.now_ns, local_ms, src, dst: None, dst_addr, bytes, ord: 0, fate: Fate::dropped() };
+            let w = WireRec { call, t_ns: self.now_ns, local_ms, local_ns, src, dst: None, dst_addr, bytes, ord: 0, fate: Fate::dropped(), arrivals_ns: Vec::new() };
             self.emit(Rec::Wire(w), oracles);
             return;
         };
@@ -720,14 +731,27 @@ impl<'a> World<'a> {
         } else {
             Fate::deliver(self.rule_for(src, dst_ep).latency_us)
         };
+        let mut fate = fate;
+        if let Some(mut adv) = self.adversary.take() {
+            if let Some(newbytes) = adv.rewrite(src, dst_ep, &bytes, &fate, self.plan) {
+                if let Some(c) = fate.copies.iter_mut().find(|c| c.flips.is_empty() && c.trunc.is_none() && c.replace.is_none()) {
+                    c.replace = Some(newbytes);
+                    self.stats.rewritten += 1;
+                }
+            }
+            self.adversary = Some(adv);
+        }
         if self.opts.materialise {
             self.applied.entry(lname).or_default().insert(ord, fate.clone());
         }
         let fifo = self.rule_for(src, dst_ep).fifo;
         let src_addr = self.addrs[src];
+        let mut arrivals_ns = Vec::new();
         for c in fate.copies.iter() {
             let mut data: Rc<Vec<u8>> = bytes.clone();
-            if !c.flips.is_empty() || c.trunc.is_some() {
+            if let Some(rb) = &c.replace {
+                data = Rc::new(rb.clone());
+            } else if !c.flips.is_empty() || c.trunc.is_some() {
                 let mut v = (*bytes).clone();
                 if let Some(t) = c.trunc {
                     v.truncate(t as usize);
@@ -757,13 +781,14 @@ impl<'a> World<'a> {
                 }
                 *last = t;
             }
+            arrivals_ns.push(t);
             let idx = self.deliveries.len();
             self.deliveries.push(Some(PendingDelivery { dst: dst_ep, src_addr, src: Some(src), bytes: data }));
             self.pending_deliveries += 1;
             self.heap.push(HeapItem { t_ns: t, rank: DELIVER_RANK, seq: self.seq, kind: ItemKind::Deliver(idx) });
             self.seq += 1;
         }
-        let w = WireRec { call, t_ns: self.now_ns, local_ms, src, dst: Some(dst_ep), dst_addr, bytes, ord, fate };
+        let w = WireRec { call, t_ns: self.now_ns, local_ms, local_ns, src, dst: Some(dst_ep), dst_addr, bytes, ord, fate, arrivals_ns };
         if let Some(mut adv) = self.adversary.take() {
             let mut out = Vec::new();
             adv.on_wire(&w, self.now_ns / 1000, self.plan, &mut out);
@@ -860,7 +885,7 @@ impl<'a> World<'a> {
         }
         let local_ns = self.local_ns(ep);
         let local_ms = local_ns / 1_000_000;
-        self.emit(Rec::Call { call, t_ns: self.now_ns, local_ms, ep: Some(ep), op: op.clone(), skipped: false }, oracles);
+        self.emit(Rec::Call { call, t_ns: self.now_ns, local_ms, local_ns, ep: Some(ep), op: op.clone(), skipped: false }, oracles);
         if self.stop {
             return;
         }
@@ -960,7 +985,8 @@ impl<'a> World<'a> {
         }
         let ep = op.ep();
         let local_ms = ep.map_or(0, |e| self.local_ms(e));
-        self.emit(Rec::Call { call, t_ns: self.now_ns, local_ms, ep, op: op.clone(), skipped }, oracles);
+        let local_ns = ep.map_or(0, |e| self.local_ns(e));
+        self.emit(Rec::Call { call, t_ns: self.now_ns, local_ms, local_ns, ep, op: op.clone(), skipped }, oracles);
         self.emit(Rec::CallEnd { call, ep, panic: None }, oracles);
     }
 
